@@ -364,6 +364,9 @@ class Interp:
             if isinstance(a, bool) and isinstance(b, bool):
                 return a == b
             return mk_bool(BT(a) == BT(b))
+        from . import ext as _ext
+        if isinstance(a, _ext.SByte1) or isinstance(b, _ext.SByte1):
+            return _ext.bytes_eq(self, a, b)
         if (is_int_like(a) or isinstance(a, float)) and (is_int_like(b) or isinstance(b, float)):
             if not isinstance(a, Sym) and not isinstance(b, Sym):
                 return a == b
@@ -600,6 +603,9 @@ class Interp:
         if a is None or b is None:
             raise PyRaise(TypeError, ('unsupported operand type(s): NoneType',))
         if isinstance(op, ast.Add):
+            from . import ext as _ext
+            if isinstance(b, _ext.SByte1):
+                return _ext.bytes_add(self, a, b)
             if isinstance(a, (str, XStr)) and isinstance(b, (str, XStr)):
                 if isinstance(a, str) and isinstance(b, str):
                     return a + b
@@ -1025,7 +1031,8 @@ class Interp:
                 if name in k.__dict__:
                     return self.bind(k.__dict__[name], obj.self_val, k)
             raise PyRaise(AttributeError, (name,))
-        if isinstance(obj, (SList, SDict, SCardSet, SSeq, SSet, SVec, GList, XStr)):
+        from .ext import SExt, SBytes
+        if isinstance(obj, (SList, SDict, SCardSet, SSeq, SSet, SVec, GList, XStr, SExt, SBytes)):
             return BuiltinMethod(obj, name)
         if isinstance(obj, ExcValue):
             if name == 'args':
@@ -1494,7 +1501,9 @@ class Interp:
                 isinstance(a, ast.JoinedStr) or
                 (isinstance(a, ast.Constant) and isinstance(a.value, str)) or
                 (isinstance(a, ast.BinOp) and isinstance(a.op, ast.Add) and
-                 all(isinstance(x, (ast.JoinedStr, ast.Constant)) for x in (a.left, a.right)))
+                 all(isinstance(x, (ast.JoinedStr, ast.Constant)) for x in (a.left, a.right))) or
+                (isinstance(a, ast.Call) and isinstance(a.func, ast.Attribute) and
+                 a.func.attr == 'format' and isinstance(a.func.value, ast.Constant))
                 for a in exc.args):
             # the message text of `raise X(f'...')` is not evaluated (dropped by the extraction,
             # like logging arguments: assumed side-effect free and non-raising)
